@@ -1365,4 +1365,168 @@ Proof.
   - intros m. unfold robot_has. simpl. rewrite map_map. reflexivity.
 Qed.
 
+(* ====================================================================== *)
+(* The NAME of a robot attribute decides nothing except: a leading          *)
+(* underscore, and being exactly "logger".  In particular a name that is a  *)
+(* substring of "logger" (log, g, er, logg ...), contains it (loggers,      *)
+(* my_logger) or differs in case (Logger) is an injectable like any other.  *)
+(* ====================================================================== *)
+
+(* Python's  a in b  for two str: a occurs in b as a contiguous substring.
+   This is NOT the test _collect_injectables makes (that one is [excluded],
+   list membership); vocabulary for the statements and examples below. *)
+Fixpoint str_in (a b : string) : bool :=
+  String.prefix a b || match b with EmptyString => false | String _ b' => str_in a b' end.
+
+(* entries whose value is read and kept: anything but a property/tunable of
+   the class and a bound method *)
+Definition kind_injectable (k : akind) : bool :=
+  match k with KPlain | KCallable => true | KMethod | KDescriptor => false end.
+
+(* ---- C08_excluded_iff_logger ---- *)
+Theorem excluded_iff_logger n : excluded n = true <-> n = "logger".
+Proof.
+  unfold excluded, exclude_from_injection, mem. simpl. rewrite orb_false_r. apply String.eqb_eq.
+Qed.
+
+Lemma not_logger_not_excluded n : n <> "logger" -> excluded n = false.
+Proof.
+  intros H. destruct (excluded n) eqn:E; [|reflexivity].
+  apply excluded_iff_logger in E. contradiction.
+Qed.
+
+Lemma injectable_attr_spec a :
+  injectable_attr a =
+  negb (is_private (ra_name a)) && negb (excluded (ra_name a)) && kind_injectable (ra_kind a).
+Proof.
+  unfold injectable_attr, excluded, exclude_from_injection, mem, kind_injectable. simpl.
+  now rewrite orb_false_r.
+Qed.
+
+Lemma injectable_attr_by_name a :
+  is_private (ra_name a) = false -> ra_name a <> "logger" ->
+  injectable_attr a = kind_injectable (ra_kind a).
+Proof.
+  intros HP HN. rewrite injectable_attr_spec, HP, (not_logger_not_excluded _ HN). reflexivity.
+Qed.
+
+(* ---- C08_robot_injectables_by_name ---- *)
+Theorem robot_injectables_by_name r n a :
+  NoDup (map ra_name (r_dir r)) ->
+  dir_entry r n = Some a -> is_private n = false -> n <> "logger" ->
+  get (robot_injectables r) n = if kind_injectable (ra_kind a) then ra_value a else None.
+Proof.
+  intros ND HE HP HN. rewrite (robot_injectables_exact r n ND), HE.
+  destruct (dir_entry_name r n a HE) as [_ EN].
+  rewrite (injectable_attr_by_name a) by (rewrite EN; assumption). reflexivity.
+Qed.
+
+(* ---- C08_names_treated_alike ---- *)
+(* renaming the robot's attributes by any f that keeps "starts with an
+   underscore" and "is exactly logger" renames the collected injectables and
+   changes nothing else: no other feature of a name is looked at *)
+Definition rename_attr (f : name -> name) (a : rattr) : rattr :=
+  {| ra_name := f (ra_name a); ra_kind := ra_kind a; ra_value := ra_value a |}.
+
+Theorem collect_rename f dir :
+  (forall a, In a dir -> is_private (f (ra_name a)) = is_private (ra_name a) /\
+                         excluded (f (ra_name a)) = excluded (ra_name a)) ->
+  collect_injectables (map (rename_attr f) dir) =
+  map (fun kv => (f (fst kv), snd kv)) (collect_injectables dir).
+Proof.
+  induction dir as [|a dir IH]; intros H; [reflexivity|].
+  destruct (H a (or_introl eq_refl)) as [HP HX].
+  assert (IH' := IH (fun b Hb => H b (or_intror Hb))).
+  cbn [map collect_injectables rename_attr ra_name ra_kind ra_value].
+  fold (excluded (f (ra_name a))). fold (excluded (ra_name a)).
+  rewrite HP, HX, IH'.
+  destruct (is_private (ra_name a) || excluded (ra_name a)
+            || match ra_kind a with KDescriptor => true | _ => false end); [reflexivity|].
+  destruct (kind_ismethod (ra_kind a)); reflexivity.
+Qed.
+
+Lemma comp_has_not_logger d n : comp_has d n = false -> n <> "logger".
+Proof. unfold comp_has. intros H E. subst n. discriminate H. Qed.
+Lemma mode_has_not_logger md n : mode_has md n = false -> n <> "logger".
+Proof. unfold mode_has. intros H E. subst n. discriminate H. Qed.
+
+(* ---- C08_robot_attr_by_name_delivered: no hypothesis on the name but "public" ---- *)
+Theorem robot_attr_by_name_delivered_comp r s :
+  startup subclass r = Ok s ->
+  NoDup (map ra_name (r_dir r)) -> NoDup (map fst (r_hints r)) ->
+  forall c d n h a o, In (c, d) (components r) -> In (n, h) (k_hints (c_class d)) ->
+    is_private n = false -> comp_has d n = false ->
+    dir_entry r n = Some a -> kind_injectable (ra_kind a) = true -> ra_value a = Some o ->
+    attr_at r (before_first_setup (trace_of r s)) (TComp c) n = Is (Some o) /\
+    attr_at r (trace_of r s) (TComp c) n = Is (Some o) /\
+    exists T, hint_type h = Some T /\ subclass (ocls o) T = true.
+Proof.
+  intros HS ND NDh c d n h a o HI Hh HP HH HE HK HV.
+  destruct (dir_entry_name r n a HE) as [_ EN].
+  apply (robot_attr_delivered_comp r s HS ND NDh c d n h a o HI Hh HP HH HE); [|exact HV].
+  rewrite injectable_attr_by_name; rewrite ?EN; auto. now apply (comp_has_not_logger d).
+Qed.
+
+Theorem robot_attr_by_name_delivered_mode r s :
+  startup subclass r = Ok s ->
+  NoDup (map ra_name (r_dir r)) -> NoDup (map fst (r_hints r)) ->
+  forall md n h a o, In md (r_modes r) -> In (n, h) (m_hints md) ->
+    is_private n = false -> mode_has md n = false ->
+    dir_entry r n = Some a -> kind_injectable (ra_kind a) = true -> ra_value a = Some o ->
+    attr_at r (before_first_setup (trace_of r s)) (TMode (m_name md)) n = Is (Some o) /\
+    attr_at r (trace_of r s) (TMode (m_name md)) n = Is (Some o) /\
+    exists T, hint_type h = Some T /\ subclass (ocls o) T = true.
+Proof.
+  intros HS ND NDh md n h a o HI Hh HP HH HE HK HV.
+  destruct (dir_entry_name r n a HE) as [_ EN].
+  apply (robot_attr_delivered_mode r s HS ND NDh md n h a o HI Hh HP HH HE); [|exact HV].
+  rewrite injectable_attr_by_name; rewrite ?EN; auto. now apply (mode_has_not_logger md).
+Qed.
+
+Theorem robot_attr_by_name_ctor_delivered r s :
+  startup subclass r = Ok s ->
+  NoDup (map ra_name (r_dir r)) -> NoDup (map fst (r_hints r)) ->
+  forall before c d after p h a o, components r = before ++ (c, d) :: after ->
+    In (p, h) (k_init_hints (c_class d)) ->
+    is_private p = false -> p <> "logger" ->
+    dir_entry r p = Some a -> kind_injectable (ra_kind a) = true -> ra_value a = Some o ->
+    exists kw,
+      nth_error (st_comps s) (List.length before) = Some {| cr_name := c; cr_def := d; cr_kwargs := kw |} /\
+      In (p, o) kw /\ exists T, hint_type h = Some T /\ subclass (ocls o) T = true.
+Proof.
+  intros HS ND NDh before c d after p h a o E Hh HP HN HE HK HV.
+  destruct (dir_entry_name r p a HE) as [_ EN].
+  apply (robot_attr_ctor_delivered r s HS ND NDh before c d after p h a o E Hh HE); [|exact HV].
+  rewrite injectable_attr_by_name; rewrite ?EN; auto.
+Qed.
+
+(* ---- C08_robot_attr_by_name_serves ---- *)
+Theorem robot_attr_by_name_serves r cs c n h T a o :
+  NoDup (map ra_name (r_dir r)) -> NoDup (map fst cs) ->
+  (forall k d, In (k, d) cs -> In (k, d) (components r)) ->
+  is_private n = false -> n <> "logger" ->
+  dir_entry r n = Some a -> kind_injectable (ra_kind a) = true -> ra_value a = Some o ->
+  hint_type h = Some T -> subclass (ocls o) T = true ->
+  ~ request_fails (injectables_with r cs) c n h.
+Proof.
+  intros ND NDc Hsub HP HN HE HK HV ET Hs.
+  destruct (dir_entry_name r n a HE) as [_ EN].
+  apply (robot_attr_serves r cs c n h T a o ND NDc Hsub HE); auto.
+  rewrite injectable_attr_by_name; rewrite ?EN; auto.
+Qed.
+
+(* ---- the plain name wins over "<c>_<n>" whatever the name looks like ---- *)
+Theorem plain_name_wins r cs c n a o :
+  NoDup (map ra_name (r_dir r)) -> NoDup (map fst cs) ->
+  (forall k d, In (k, d) cs -> In (k, d) (components r)) ->
+  is_private n = false -> n <> "logger" ->
+  dir_entry r n = Some a -> kind_injectable (ra_kind a) = true -> ra_value a = Some o ->
+  pick (injectables_with r cs) c n = Some o.
+Proof.
+  intros ND NDc Hsub HP HN HE HK HV.
+  destruct (dir_entry_name r n a HE) as [_ EN].
+  apply (pick_robot_attr r cs c n a o ND NDc Hsub HE); auto.
+  rewrite injectable_attr_by_name; rewrite ?EN; auto.
+Qed.
+
 End WithSubclass.
